@@ -330,7 +330,7 @@ func c03CallGraphs(c *vh.Ctx) (sample [][]byte) {
 			}
 			keys = append(keys, src)
 			r := c03Parse([]byte(src))
-			if bad := c03CheckParse([]byte(src), r); bad != "" {
+			if bad := c03CheckParseAll([]byte(src), r); bad != "" {
 				local = append(local, c03GramFail{src, bad, desc})
 				continue
 			}
